@@ -58,6 +58,18 @@ theorem mapM_roundtrip {α β : Type} (f : α → Except Err β) (g : β → Exc
     exact ⟨x, xs, hx x (List.mem_cons_self) y hy,
       mapM_roundtrip f g xs ys' (fun x' hx' => hx x' (List.mem_cons_of_mem _ hx')) hys, rfl⟩
 
+/-- element lists, elements decoded up to `c`. -/
+theorem mapM_roundtrip_map {α β : Type} (f : α → Except Err β) (g : β → Except Err α) (c : α → α) :
+    ∀ (xs : List α) (ys : List β), (∀ x ∈ xs, ∀ y, f x = .ok y → g y = .ok (c x)) →
+      xs.mapM f = .ok ys → ys.mapM g = .ok (xs.map c)
+  | [], ys, _, h => by
+    simp at h; subst h; rfl
+  | x :: xs, ys, hx, h => by
+    obtain ⟨y, ys', hy, hys, rfl⟩ := (mapM_cons_ok f x xs ys).mp h
+    rw [List.map_cons, mapM_cons_ok]
+    exact ⟨c x, xs.map c, hx x (List.mem_cons_self) y hy,
+      mapM_roundtrip_map f g c xs ys' (fun x' hx' => hx x' (List.mem_cons_of_mem _ hx')) hys, rfl⟩
+
 /-! ## objects -/
 
 theorem jlookup_append_left {k : String} {a b : List (String × Json)} (h : k ∉ keys b) :
